@@ -3,15 +3,20 @@
 package h
 
 import (
+	"context"
 	"fmt"
 	"os"
+	"runtime/debug"
 	"sort"
 	"strings"
 	"time"
 
 	"github.com/sdcio/cache/proto/cachepb"
+	"github.com/sdcio/data-server/pkg/cache"
 	dconfig "github.com/sdcio/data-server/pkg/config"
+	"github.com/sdcio/data-server/pkg/tree"
 	"github.com/sdcio/data-server/pkg/verifrt"
+	sdcpb "github.com/sdcio/sdc-protos/sdcpb"
 )
 
 // C17: validation verdicts do not depend on scheduling.
@@ -29,6 +34,13 @@ type c17Scenario struct {
 	Running []Leaf
 	Setup   []Op
 	Test    Op
+	// TreeLevel: the tree is built the way lowlevelTransactionSet builds it, but without the up-front
+	// RefreshCaches, so that the cache indexes are loaded on demand by the first validator that needs them
+	TreeLevel bool
+	// Bare (with TreeLevel): only the new intent contents are put into the tree (as the repository's tree tests do);
+	// the old intent, the other intents and running are not loaded, so that the validators load what they need
+	// on demand, including the indexes of the tree cache client
+	Bare bool
 }
 
 func c17Scenarios() []c17Scenario {
@@ -49,11 +61,20 @@ func c17Scenarios() []c17Scenario {
 		{Name: "two-intents-pattern-range-minmax", Running: run1, Test: one(A("c17d"), B("c17e"))},
 		// removal of an intent that another intent's leafref depends on
 		{Name: "delete-referenced", Running: nil, Setup: []Op{one(A("vif")), one(B("vup"))}, Test: one(IntentSpec{Owner: "A", Prio: 10, Delete: true})},
-		// mandatory + list keys + nested leafref
-		{Name: "mandatory-missing+unit-peer", Running: run2, Test: one(A("c17f"), C("vmv"))},
 	}
 	if Tier() == "thorough" {
+		// mandatory + list keys + nested leafref
+		scs = append(scs, c17Scenario{Name: "mandatory-missing+unit-peer", Running: run2, Test: one(A("c17f"), C("vmv"))})
+	}
+	// tree level: mandatory leaves held by another intent (looked up in the lazily loaded intended index by
+	// several validators at once), leafrefs into running
+	scs = append(scs,
+		c17Scenario{Name: "tree:mandatory-of-other-intent", TreeLevel: true, Running: []Leaf{leaf("r", "sys", "hostname")}, Setup: []Op{one(A("c17m"))}, Test: one(B("c17v"))},
+		c17Scenario{Name: "bare:lazy-indexes mandatory+leafref", TreeLevel: true, Bare: true, Running: run2, Setup: []Op{one(A("c17m"))}, Test: one(B("c17v"))},
+	)
+	if Tier() == "thorough" {
 		scs = append(scs,
+			c17Scenario{Name: "tree:mandatory-missing+leafref", TreeLevel: true, Running: run2, Setup: []Op{one(A("vmm"))}, Test: one(B("c17v"), C("c17c"))},
 			c17Scenario{Name: "shadowed-invalid", Running: run1, Setup: []Op{one(A("vm9"))}, Test: one(C("vm5"), B("vg"))},
 			c17Scenario{Name: "three-intents", Running: run2, Test: one(A("c17a"), B("c17c"), C("c17e"))},
 		)
@@ -69,6 +90,11 @@ func c17Fragments() map[string]*Fragment {
 	add("c17c", leaf("e2", "refs", "uplink"), leaf("7", "if", e1, "unit", K{"id", "1"}, "vlan"), leaf("e2", "if", e1, "unit", K{"id", "1"}, "peer"))
 	add("c17d", leaf("Upper", "sys", "hostname"), leaf("50", "sys", "mtu"), Leaf{P: P("refs", "ll"), LLU: []uint64{1, 2, 3}})
 	add("c17e", leaf("ok", "sys", "mtu-ext"), leafLL([]string{"a", "b"}, "sys", "dns"), leaf("d2", "if", e2, "descr"))
+	m1, m2, m3 := K{"id", "m1"}, K{"id", "m2"}, K{"id", "m3"}
+	// two lists with a mandatory leaf: their mandatory checks run in different validator goroutines
+	add("c17m", leaf("m", "mand", m1, "m"), leaf("m", "dk", K{"zk", "z1"}, K{"ak", "a1"}, "m"))
+	add("c17v", leaf("v", "mand", m1, "v"), leaf("v", "dk", K{"zk", "z1"}, K{"ak", "a1"}, "v"))
+	_, _ = m2, m3
 	add("c17f", leaf("5000", "if", e1, "unit", K{"id", "2"}, "vlan"), leaf("e7", "if", e1, "unit", K{"id", "2"}, "peer"), leaf("x", "if", e2, "descr"))
 	return fr
 }
@@ -120,8 +146,98 @@ func c17Run(u *Universe, sc c17Scenario, concurrent bool) (*World, *Outcome, err
 		}
 	}
 	val.DisableConcurrency = !concurrent
+	if sc.TreeLevel {
+		out, err := c17TreeLevel(w, sc.Test, val, sc.Bare)
+		return w, out, err
+	}
 	out := w.Apply(sc.Test)
 	return w, out, nil
+}
+
+// c17TreeLevel validates the transaction on a tree built like Datastore.lowlevelTransactionSet builds it, except
+// that the tree cache client's indexes are not refreshed up front. The verdict is put into a TransactionSetResponse
+// so that it is compared like the others.
+func c17TreeLevel(w *World, op Op, val *dconfig.Validation, bare bool) (*Outcome, error) {
+	ctx := context.Background()
+	out := &Outcome{Rsp: &sdcpb.TransactionSetResponse{Intents: map[string]*sdcpb.TransactionSetResponseIntent{}}}
+	defer func() {
+		if r := recover(); r != nil {
+			out.Panic = fmt.Sprintf("%v\n%s", r, debug.Stack())
+		}
+	}()
+	scb := w.DS.VerifSchemaClient()
+	tscc := tree.NewTreeCacheClient(w.Name, w.CC)
+	tc := tree.NewTreeContext(tscc, scb, w.Name)
+	root, err := tree.NewTreeRoot(ctx, tc)
+	if err != nil {
+		return nil, err
+	}
+	involved := tree.NewPathSet()
+	flagNew := tree.NewUpdateInsertFlags()
+	flagNew.SetNewFlag()
+	var names []string
+	for _, is := range op.Intents {
+		pi, err := w.BuildIntent(is)
+		if err != nil {
+			return nil, err
+		}
+		ti, err := w.DS.SdcpbTransactionIntentToInternalTI(ctx, pi)
+		if err != nil {
+			return nil, err
+		}
+		names = append(names, ti.GetName())
+		tc.SetActualOwner(ti.GetName())
+		if !bare {
+			old, err := root.LoadIntendedStoreOwnerData(ctx, ti.GetName(), ti.GetOnlyIntended())
+			if err != nil {
+				return nil, err
+			}
+			involved.Join(old.ToPathSet())
+		}
+		if err := root.AddCacheUpdatesRecursive(ctx, ti.GetUpdates(), flagNew); err != nil {
+			return nil, err
+		}
+		involved.Join(ti.GetUpdates().ToPathSet())
+	}
+	flags := tree.NewUpdateInsertFlags()
+	if bare {
+		root.FinishInsertionPhase(ctx)
+		res := root.Validate(ctx, val)
+		for name, r := range res {
+			out.Rsp.Intents[name] = &sdcpb.TransactionSetResponseIntent{Errors: r.ErrorsString(), Warnings: r.WarningsString()}
+		}
+		return out, nil
+	}
+	for _, e := range tscc.ReadCurrentUpdatesHighestPriorities(ctx, involved.GetPaths(), uint64(len(names))+1) {
+		skip := false
+		for _, n := range names {
+			if e.Owner() == n {
+				skip = true
+			}
+		}
+		if skip {
+			continue
+		}
+		if _, err := root.AddCacheUpdateRecursive(ctx, e, flags); err != nil {
+			return nil, err
+		}
+	}
+	run, err := tscc.ReadRunningFull(ctx)
+	if err != nil {
+		return nil, err
+	}
+	for _, upd := range run {
+		nu := cache.NewUpdate(upd.GetPath(), upd.Bytes(), tree.RunningValuesPrio, tree.RunningIntentName, 0)
+		if _, err := root.AddCacheUpdateRecursive(ctx, nu, flags); err != nil {
+			return nil, err
+		}
+	}
+	root.FinishInsertionPhase(ctx)
+	res := root.Validate(ctx, val)
+	for name, r := range res {
+		out.Rsp.Intents[name] = &sdcpb.TransactionSetResponseIntent{Errors: r.ErrorsString(), Warnings: r.WarningsString()}
+	}
+	return out, nil
 }
 
 func c17Sched(u *Universe, sc c17Scenario, want string) verifrt.Scenario {
@@ -205,12 +321,39 @@ func runC17() int {
 		}
 		scs = append(scs, schedScenario{sc.Name, c17Sched(u, sc, want)})
 	}
+	if len(os.Args) > 3 && os.Args[2] == "one" {
+		var pick []schedScenario
+		for _, sc := range scs {
+			if sc.Name == os.Args[3] {
+				pick = append(pick, sc)
+			}
+		}
+		schedSwitchBound = 1
+		tot := exploreScenarios(rep, pick, 1, 0, 200000, time.Now().Add(10*time.Minute), sigOf)
+		for k, n := range tot.Outcomes {
+			fmt.Fprintf(os.Stderr, "%d x %s\n", n, k)
+		}
+		return rep.Finish(tot.coverage(nil))
+	}
 	pb := 1
 	schedSwitchBound = 1
 	if Tier() == "thorough" {
 		pb = 2
 		schedSwitchBound = 2
 	}
+	// cheap scenarios first: a time cap (busy machine) then cuts the long tail, not whole scenarios
+	order := map[string]int{"bare:lazy-indexes mandatory+leafref": 0, "tree:mandatory-of-other-intent": 1, "tree:mandatory-missing+leafref": 2, "delete-referenced": 3, "must-default+leafref-ok": 4, "leafref-into-running": 5}
+	sort.SliceStable(scs, func(i, j int) bool {
+		oi, iok := order[scs[i].Name]
+		oj, jok := order[scs[j].Name]
+		switch {
+		case iok && jok:
+			return oi < oj
+		case iok:
+			return true
+		}
+		return false && jok
+	})
 	shardByBranch = true
 	tot, code := exploreSharded(rep, "C17", scs, pb, 0, 200000, deadlineFor(8*time.Minute, 100*time.Minute), sigOf)
 	if code != 0 {
